@@ -174,8 +174,13 @@ def run_shard(spec, rec):
     rec.require("renders-compared", "python-route-renders")
     rng = random.Random(f"{spec['seed']}-c01-{spec['idx']}")
     for i in range(spec["n"]):
-        prng = random.Random(rng.random())
-        prog, origin = gen_program(prng)
+        # programs whose expectation the statement leaves open are re-drawn (and counted)
+        for attempt in range(10):
+            prng = random.Random(rng.random())
+            prog, origin = gen_program(prng)
+            if all(e1run.reference(prog, m)[0] != "unspec" for m in ("django", "isolated")):
+                break
+            rec.count("regenerated_unspecified")
         seedinfo = [spec["seed"], spec["idx"], i]
         nt = check_program(env, rec, prog, origin, seedinfo)
         rec.case(prog, nontrivial=nt)
